@@ -1,2 +1,276 @@
-"""Properties decided by their own drivers (C18 panic safety, C19 API soundness)."""
-HANDLERS = {}
+"""Properties decided by their own drivers: C19 (API soundness; table regenerated from rustdoc JSON +
+compile probes) and C18 (panic safety; fault-injection executor, see c18.py)."""
+import json
+import os
+import re
+import subprocess
+import time
+from concurrent.futures import ThreadPoolExecutor
+
+import sigtable
+
+ROOT = os.path.dirname(os.path.dirname(os.path.abspath(__file__)))
+LEAN = os.path.join(ROOT, "lean")
+WORK = os.path.join(ROOT, "work")
+
+CTOR = {
+    "RawLRU": "RawLRU::<u64, u64>::new(2).unwrap()",
+    "SegmentedCache": "SegmentedCache::<u64, u64>::new(2, 2).unwrap()",
+    "TwoQueueCache": "TwoQueueCache::<u64, u64>::new(4).unwrap()",
+    "AdaptiveCache": "AdaptiveCache::<u64, u64>::new(4).unwrap()",
+    "WTinyLFUCache": "WTinyLFUCache::<u64, u64>::with_sizes(1, 2, 2, 5).unwrap()",
+}
+BORROW_ERRS = {"E0499", "E0502", "E0505", "E0506", "E0597", "E0716", "E0503", "E0515", "E0501"}
+PRELUDE = """#![allow(unused)]
+use caches::*;
+use caches::lru::*;
+fn touch<T>(_t: T) {}
+"""
+MARKER_PRELUDE = """#![allow(unused)]
+use caches::*;
+use caches::lru::*;
+struct NoSync(std::cell::Cell<u8>);
+impl std::hash::Hash for NoSync { fn hash<H: std::hash::Hasher>(&self, _h: &mut H) {} }
+impl PartialEq for NoSync { fn eq(&self, _: &Self) -> bool { true } }
+impl Eq for NoSync {}
+struct NoSend(std::rc::Rc<u8>);
+impl std::hash::Hash for NoSend { fn hash<H: std::hash::Hasher>(&self, _h: &mut H) {} }
+impl PartialEq for NoSend { fn eq(&self, _: &Self) -> bool { true } }
+impl Eq for NoSend {}
+fn is_send<T: Send>() {}
+fn is_sync<T: Sync>() {}
+"""
+
+
+def call_expr(m):
+    """expression calling method m on `c` (or None if the arguments cannot be synthesised)"""
+    if m["ty"] == "&RawLRU":
+        return "(&c).into_iter()"
+    if m["ty"] == "&mut RawLRU":
+        return "(&mut c).into_iter()"
+    if m["args"] is None or any(a is None for a in m["args"]):
+        return None
+    return "c.%s(%s)" % (m["method"], ", ".join(m["args"]))
+
+
+def method_probes(i, m):
+    base = m["ty"].replace("&mut ", "").replace("&", "")
+    if base not in CTOR:
+        return []
+    ce = call_expr(m)
+    if ce is None:
+        return []
+    setup = "let mut c = %s; c.put(1, 1); c.put(2, 2);" % CTOR[base]
+    out = []
+    out.append(("m%d_p1" % i, "hold-across-mutation", True,
+                PRELUDE + "fn main() { %s let r = %s; c.purge(); touch(r); }\n" % (setup, ce)))
+    out.append(("m%d_p2" % i, "outlive-the-cache", True,
+                PRELUDE + "fn main() { let r; { %s r = %s; } touch(r); }\n" % (setup, ce)))
+    if m["recv"] == "refMut" or m["ty"] == "&mut RawLRU":
+        out.append(("m%d_p3" % i, "two-live-results-of-a-mut-method", True,
+                    PRELUDE + "fn main() { %s let a = %s; let b = %s; touch(a); touch(b); }\n" % (setup, ce, ce)))
+    out.append(("m%d_ok" % i, "control", False,
+                PRELUDE + "fn main() { %s let r = %s; touch(r); c.purge(); }\n" % (setup, ce)))
+    return out
+
+
+def type_expr(ty, k, v, e=None):
+    if ty == "RawLRU":
+        return "RawLRU<%s, %s, %s>" % (k, v, e or "DefaultEvictCallback")
+    if ty in ("SegmentedCache", "TwoQueueCache", "AdaptiveCache", "WTinyLFUCache"):
+        return "%s<%s, %s>" % (ty, k, v)
+    return "%s<'static, %s, %s>" % (ty, k, v)
+
+
+def marker_probes(i, row, req):
+    """req: {param: 'send'|'sync'} as computed by the Lean `required`"""
+    fn = "is_send" if row["marker"] == "Send" else "is_sync"
+    out = []
+
+    def prog(k="u8", v="u8", e=None):
+        return MARKER_PRELUDE + "fn main() { %s::<%s>(); }\n" % (fn, type_expr(row["ty"], k, v, e))
+    out.append(("i%d_ok" % i, "control", False, prog()))
+    for param, slot in (("key", "k"), ("val", "v"), ("other", "e")):
+        if param not in req:
+            continue
+        if slot == "e" and row["ty"] != "RawLRU":
+            continue
+        r = req[param]
+        kw_bad = {slot: "NoSync" if r == "sync" else "NoSend"}
+        out.append(("i%d_%s_bad" % (i, param), "%s lacks %s" % (param, r), True, prog(**kw_bad)))
+        if r == "send":
+            out.append(("i%d_%s_sendonly" % (i, param), "%s is Send but not Sync (allowed)" % param, False, prog(**{slot: "NoSync"})))
+    return out
+
+
+def compile_probe(wdir, rlib, deps, name, src):
+    path = os.path.join(wdir, name + ".rs")
+    open(path, "w").write(src)
+    p = subprocess.run(["rustc", "--edition", "2021", "--crate-type", "bin", "--emit=metadata", "--out-dir", os.path.join(wdir, "out"),
+                        "--extern", "caches=" + rlib, "-L", "dependency=" + deps, path],
+                       stdout=subprocess.PIPE, stderr=subprocess.PIPE)
+    err = p.stderr.decode("utf-8", "replace")
+    codes = set(re.findall(r"error\[(E\d+)\]", err))
+    return p.returncode, codes, err
+
+
+def check_C19(pid, tier, seed, chk):
+    t0 = time.time()
+    wdir = os.path.join(WORK, "C19")
+    os.makedirs(os.path.join(wdir, "out"), exist_ok=True)
+    notes, out_lines = [], []
+    env = dict(os.environ, CARGO_NET_OFFLINE="true")
+    violations = 0
+
+    def viol(kind, what, lines, tag, found=True):
+        nonlocal violations
+        path = chk.write_replay(pid, seed, tier, kind, what, lines, "", tag)
+        out_lines.append("VIOLATION property=%s replay=%s%s" % (pid, path, "" if found else " no-failing-input-found"))
+        violations += 1
+
+    # 1. translator: rustdoc JSON of /repo's current source -> Generated/Signatures.lean
+    env_doc = dict(env, CARGO_TARGET_DIR=os.path.join(WORK, "rustdoc-target"))
+    p = subprocess.run(["cargo", "+nightly", "rustdoc", "--offline", "--lib", "--", "-Z", "unstable-options", "--output-format", "json"],
+                       cwd="/repo", env=env_doc, stdout=subprocess.PIPE, stderr=subprocess.PIPE)
+    jpath = os.path.join(WORK, "rustdoc-target", "doc", "caches.json")
+    if p.returncode != 0 or not os.path.exists(jpath):
+        viol("translator-break", ["rustdoc JSON could not be produced: " + p.stderr.decode()[-600:]], [], "rustdoc", False)
+        finish(pid, tier, seed, t0, chk, [], {}, 0, 0, 0, notes, violations, out_lines, 0, [])
+        return 1
+    methods, markers, sealed, iter_kind = sigtable.extract(jpath)
+    markers = [m for m in markers if not m["negative"]]
+    sigtable.emit_lean(methods, markers, sealed, iter_kind, os.path.join(LEAN, "Caches", "Generated", "Signatures.lean"))
+
+    # 2. the model's verdict per row (Lean is the decider), independent of whether the theorems still hold
+    vsrc = ("import Caches.Generated.Signatures\nopen M.Api19 M.Gen\n"
+            "def pr (p : Param) : String := match p with | .key => \"key\" | .val => \"val\" | .other => \"other\"\n"
+            "def mk (m : Marker) : String := match m with | .send => \"send\" | .sync => \"sync\"\n"
+            "#eval (methods.zipIdx.map (fun (s, i) => s!\"M {i} {tied s}\")).forM IO.println\n"
+            "#eval (markerImpls.zipIdx.map (fun (x, i) => s!\"I {i} {boundsSufficient x} \" ++ \" \".intercalate (x.bounds.map (fun (b : Param × List Marker) => pr b.1 ++ \"=\" ++ mk (required x.kind x.marker b.1))))).forM IO.println\n")
+    vpath = os.path.join(wdir, "Verdicts.lean")
+    open(vpath, "w").write(vsrc)
+    subprocess.run(["lake", "build", "Caches.Generated.Signatures"], cwd=LEAN, stdout=subprocess.PIPE, stderr=subprocess.PIPE)
+    p = subprocess.run(["lake", "env", "lean", vpath], cwd=LEAN, stdout=subprocess.PIPE, stderr=subprocess.PIPE)
+    vtxt = p.stdout.decode()
+    tied, suff, req = {}, {}, {}
+    for line in vtxt.splitlines():
+        t = line.split()
+        if len(t) >= 3 and t[0] == "M":
+            tied[int(t[1])] = t[2] == "true"
+        elif len(t) >= 3 and t[0] == "I":
+            suff[int(t[1])] = t[2] == "true"
+            req[int(t[1])] = dict(x.split("=") for x in t[3:])
+    if len(tied) != len(methods) or len(suff) != len(markers):
+        notes.append("verdict listing incomplete: %s" % (p.stderr.decode()[-300:]))
+
+    # 3. proofs
+    ok_build, blog = chk.lean_build(["Caches.Properties.C19"])
+    theorems = chk.property_theorems(pid)
+    proof_break = []
+    if not ok_build:
+        proof_break.append("lake build Caches.Properties.C19 failed: " + "\n".join(l for l in blog.splitlines() if "error" in l)[:600])
+    hy = chk.hygiene()
+    if hy:
+        proof_break.append("forbidden constructs: " + "; ".join(hy[:5]))
+    axioms, aprob = ({}, ["build failed"]) if not ok_build else chk.audit_axioms(pid, theorems, wdir)
+    proof_break += aprob
+    discharged = len([t for t in theorems if t in axioms and set(axioms[t]) <= chk.ALLOWED_AXIOMS]) if ok_build else 0
+
+    # 4. probes against the real crate (stable rustc is the oracle for "rejected at compile time")
+    env_b = dict(env, CARGO_TARGET_DIR=os.path.join(WORK, "probe-target"))
+    p = subprocess.run(["cargo", "build", "--release", "--offline", "--lib"], cwd="/repo", env=env_b, stdout=subprocess.PIPE, stderr=subprocess.PIPE)
+    rlib = os.path.join(WORK, "probe-target", "release", "libcaches.rlib")
+    deps = os.path.join(WORK, "probe-target", "release", "deps")
+    if p.returncode != 0:
+        viol("correspondence-break", ["the crate does not build: " + p.stderr.decode()[-500:]], [], "build", False)
+    probes = []
+    for i, m in enumerate(methods):
+        for name, what, must_reject, src in method_probes(i, m):
+            probes.append(dict(name=name, what=what, must_reject=must_reject, src=src, row=("M", i)))
+    for i, r in enumerate(markers):
+        for name, what, must_reject, src in marker_probes(i, r, req.get(i, {})):
+            probes.append(dict(name=name, what=what, must_reject=must_reject, src=src, row=("I", i)))
+    if tier == "quick":
+        # every row keeps its hold-across-mutation probe and its control; the other shapes for every third row
+        probes = [pb for pb in probes if pb["name"].endswith(("_p1", "_ok", "_bad", "_sendonly")) or pb["row"][1] % 3 == 0]
+
+    def run(pb):
+        rc, codes, err = compile_probe(wdir, rlib, deps, pb["name"], pb["src"])
+        pb["rc"], pb["codes"], pb["err"] = rc, codes, err
+        return pb
+    with ThreadPoolExecutor(max_workers=14) as ex:
+        probes = list(ex.map(run, probes))
+    invalid = 0
+    unprobed = [m for m in methods if not method_probes(0, m) and m["trait"] not in ("Iterator", "DoubleEndedIterator")]
+    reported_rows = set()
+    for pb in probes:
+        kind, i = pb["row"]
+        rejected = pb["rc"] != 0
+        if kind == "M":
+            row = methods[i]
+            model_safe = tied.get(i, True)
+            desc = "%s::%s (%s)" % (row["ty"], row["method"], pb["what"])
+            okcodes = BORROW_ERRS
+        else:
+            row = markers[i]
+            model_safe = suff.get(i, True)
+            desc = "impl %s for %s (%s)" % (row["marker"], row["ty"], pb["what"])
+            okcodes = {"E0277"}
+        if rejected and not (pb["codes"] & okcodes):
+            invalid += 1
+            notes.append("probe %s failed for an unrelated reason %s" % (pb["name"], sorted(pb["codes"])))
+            continue
+        if pb["must_reject"]:
+            if not rejected:
+                # an abusive program is accepted by the compiler: this IS the failing input
+                if (kind, i) in reported_rows:
+                    continue
+                reported_rows.add((kind, i))
+                what = ["%s: rustc accepts a program the property says must be rejected" % desc,
+                        "model verdict for this row: %s" % ("tied/sufficient" if model_safe else "NOT tied / bounds insufficient (theorem %s no longer holds)" %
+                                                               ("C19.all_tied" if kind == "M" else "C19.all_bounds_sufficient")),
+                        "replay: rustc --edition 2021 --crate-type bin --emit=metadata --extern caches=<libcaches.rlib> <this file>  (compiles = violation)"]
+                viol("oracle-failure", what, pb["src"].splitlines(), pb["name"])
+            elif not model_safe:
+                notes.append("row %s: model says unsafe but rustc rejects the probe %s" % (desc, pb["name"]))
+        else:
+            if rejected:
+                if (kind, i, "c") in reported_rows:
+                    continue
+                reported_rows.add((kind, i, "c"))
+                viol("model-disagreement", ["%s: a legitimate program is rejected by rustc: %s" % (desc, sorted(pb["codes"]))],
+                     pb["src"].splitlines(), pb["name"], False)
+    if proof_break and violations == 0:
+        bad_rows = [methods[i] for i, ok in tied.items() if not ok] + [markers[i] for i, ok in suff.items() if not ok]
+        what = ["proof-break: " + x for x in proof_break] + ["rows rejected by the model: %s" % json.dumps(bad_rows)[:800]]
+        viol("proof-break", what, [], "proof", False)
+    finish(pid, tier, seed, t0, chk, theorems, axioms, discharged, len(probes), invalid, notes, violations, out_lines,
+           len(methods) + len(markers), [dict(name=pb["name"], what=pb["what"], must_reject=pb["must_reject"], rustc_codes=sorted(pb["codes"]),
+                                              program=pb["src"].splitlines()[-1]) for pb in probes[:3]],
+           extra=dict(methods_in_table=len(methods), marker_impls_in_table=len(markers),
+                      rows_not_probed=["%s::%s" % (m["ty"], m["method"]) for m in unprobed][:40]))
+    for l in out_lines:
+        print(l)
+    if violations == 0:
+        print("OK property=%s tier=%s theorems=%d/%d rows=%d probes=%d wall=%.1fs" %
+              (pid, tier, discharged, len(theorems), len(methods) + len(markers), len(probes), time.time() - t0))
+    return 1 if violations else 0
+
+
+def finish(pid, tier, seed, t0, chk, theorems, axioms, discharged, nprobes, invalid, notes, violations, out_lines, rows, samples, extra=None):
+    cov = dict(obligations=max(len(theorems), 1), discharged=discharged,
+               checker_cmd="cargo +nightly rustdoc (JSON) -> tools/sigtable.py -> lake build Caches.Properties.C19; #print axioms",
+               trusted_base=chk.TRUSTED + ["rustc borrow checker and auto-trait solver (oracle of the probes)", "rustdoc JSON (format 57)"],
+               theorems=theorems, axioms=axioms, programs=nprobes, disagreements_checked=nprobes,
+               evaluations=nprobes, distinct_nontrivial=nprobes - invalid,
+               rule="one table row per public reference-returning method and per Send/Sync impl (regenerated from rustdoc JSON); per row the probe programs "
+                    "hold-across-mutation, outlive-the-cache, double-mutable / parameter-without-the-bound, plus a positive control; non-trivial = probe whose "
+                    "verdict is decided by a borrow/auto-trait error or by successful compilation",
+               samples=samples, table_rows=rows, invalid_probes=invalid, notes=notes, exhaustive=(tier == "thorough"))
+    if extra:
+        cov.update(extra)
+    chk.write_evidence(pid, tier, seed, time.time() - t0, cov,
+                       ["rustc decides which programs are rejected; `tied`/`boundsSufficient` model the elision and auto-trait rules"], violations)
+
+
+HANDLERS = {"C19": check_C19}
